@@ -738,3 +738,27 @@ Proof.
   - exists toks. auto.
   - destruct G as (n & x & E). exfalso. exact (Htot n x E).
 Qed.
+
+(* ------------------------------------------------------------------ a trivial total, lossless oracle (for examples) *)
+Definition ascii_text (s : String.string) : text := map byte_n (B s).
+
+Definition one_token_oracle (name : bytes) (t : text) : option (list token) :=
+  match t with [] => Some [] | _ => Some [(0%N, B "Token.Other", t)] end.
+
+Lemma one_token_oracle_lossless : oracle_lossless one_token_oracle.
+Proof.
+  intros name txt toks. unfold one_token_oracle. destruct txt; intros E; inversion E; subst; simpl.
+  - reflexivity.
+  - rewrite app_nil_r. reflexivity.
+Qed.
+
+Lemma one_token_oracle_total : forall name txt, one_token_oracle name txt <> None.
+Proof. intros name [|x t]; discriminate. Qed.
+
+(* the theorem at the default fuel of [lex_default] *)
+Corollary lex_default_lossless oracle tbl :
+  rules_ok tbl = true -> oracle_lossless oracle -> (forall name txt, oracle name txt <> None) ->
+  forall t, exists toks, lex_default oracle tbl t = LOk toks /\ concat (map tok_val toks) = t.
+Proof.
+  intros Hok Hor Htot t. unfold lex_default. apply C20_lossless_total_thm; auto.
+Qed.
